@@ -109,3 +109,36 @@ ENGINES = {
 }
 
 NOT_APPLICABLE = {}
+
+E3_ASSUME = [
+    "crash model of C02 taken literally: every file keeps a prefix of its written bytes at least as long as at its last fsync; directory operations persist in issue order at least up to the last fsync of any file or directory; O_TRUNC of an existing name is ordered with the directory operations; no reordering inside a file, no garbage blocks",
+    "histories are sequential (one foreground writer); background flush/compaction run on lcdb's own thread as a fiber, drained after every operation (starve variants: explicit drain operations)",
+    "every write batch additionally puts a unique marker key, so the surviving batch set U is read off the recovered database; contents must equal the fold of exactly U in issue order",
+    "3 user keys, values 10 B / 1.1 KiB, stress sizes B1 (write buffer 4200 B, file size 2500 B) so that log rotation, flushes and compactions happen within short histories",
+]
+
+
+def e3_stage(prop, quick_len, thorough_len, cfgs_q, cfgs_t, nested_q=1, nested_t=2, extra=None):
+    return dict(name="crash", driver="crash", flavour="asan", args=["--prop", prop] + (extra or []),
+                quick=["--cfgs", cfgs_q, "--len", str(quick_len), "--nested", str(nested_q)],
+                thorough=["--cfgs", cfgs_t, "--len", str(thorough_len), "--nested", str(nested_t), "--wide", "1"])
+
+
+CFG_Q = "B1;B1,reuse=1;B1,snappy=1"
+CFG_T = "B1;B1,reuse=1;B1,snappy=1;B1,reuse=1,snappy=1,bloom=1;B1,mmap=0,cache=1"
+
+E3_RULE = ("every history up to the given length over {put-sync, put, put-1KiB, batch-sync(3 updates), del-sync, flush, reopen} plus 7 scripted longer histories "
+           "(log rotation, flush, compaction, reopen chains, 700-update batch) x EVERY journal index (system-call boundary) as crash point x image classes "
+           "{min, max, dir-ahead, data-ahead, every intermediate directory prefix x {synced,written}, every cut inside the last write (all cuts if <=256 B)}; "
+           "real ldb_open on each distinct image with paranoid_checks 0 and 1, second open, follow-up write + third open, and crash points inside the recovery itself; "
+           "distinct = distinct (recovered contents, surviving set, open status) outcomes")
+
+for _p, _tech, _ql, _tl in [
+    ("C02", "crash-point x crash-image enumeration of recorded I/O journals of the real write path; recovery by the real ldb_open; oracle: sync-acknowledged and log-deleted batches survive", 2, 3),
+    ("C03", "kill-point enumeration (image = everything written) over recorded journals incl. nested kill points inside recovery; oracle: every acknowledged batch present, at most the in-flight one extra, order preserved", 2, 3),
+    ("C05", "crash-point x crash-image enumeration; oracle: open succeeds, contents = fold of a per-log-segment prefix set, second open identical, follow-up write wins and persists, nested crash loses nothing", 2, 3),
+]:
+    PROPS[_p] = dict(level="fault_enumeration", technique=_tech, rule=E3_RULE, distinct_key="outcomes", assumptions=E3_ASSUME,
+                     stages=[e3_stage(_p, _ql, _tl, CFG_Q, CFG_T)])
+
+ENGINES["crash"] = "E3: crash-point x crash-image enumerator over the journal of the in-memory VFS; recovery by the real ldb_open"
